@@ -185,11 +185,27 @@ func (c *Ctx) signerSequence(i int, rng *rand.Rand) {
 				ts = last.TS
 			}
 		}
+		// write-fault injection: the directory of the state file disappears for the duration of one request;
+		// a signature must not be released unless its record is durable
+		fault := rng.Intn(12) == 0
+		away := dir + ".away"
+		panicked := false
+		if fault {
+			_ = os.Rename(dir, away)
+		}
+		call := func(f func() error) error {
+			defer func() {
+				if r := recover(); r != nil {
+					panicked = true
+				}
+			}()
+			return f()
+		}
 		if step == 1 {
 			p := &tmproto.Proposal{Type: tmproto.ProposalType, Height: h, Round: r, PolRound: -1, BlockID: blockIDFor(bid), Timestamp: ts}
 			req = fmt.Sprintf("proposal h=%d r=%d ts=%d bid=%d", h, r, ts.Unix(), bid)
 			signBytes = tmtypes.ProposalSignBytes(chainID, p)
-			err = pv.SignProposal(chainID, p)
+			err = call(func() error { return pv.SignProposal(chainID, p) })
 			sig, outTS = p.Signature, p.Timestamp
 		} else {
 			typ := tmproto.PrevoteType
@@ -199,8 +215,20 @@ func (c *Ctx) signerSequence(i int, rng *rand.Rand) {
 			v := &tmproto.Vote{Type: typ, Height: h, Round: r, BlockID: blockIDFor(bid), Timestamp: ts, ValidatorAddress: pub.Address(), ValidatorIndex: 0}
 			req = fmt.Sprintf("vote step=%d h=%d r=%d ts=%d bid=%d", step, h, r, ts.Unix(), bid)
 			signBytes = tmtypes.VoteSignBytes(chainID, v)
-			err = pv.SignVote(chainID, v)
+			err = call(func() error { return pv.SignVote(chainID, v) })
 			sig, outTS = v.Signature, v.Timestamp
+		}
+		if fault {
+			_ = os.Rename(away, dir)
+			req += " [state dir unavailable]"
+			c.Count("write-faults-injected", 1)
+		}
+		if panicked {
+			// the process would have died: continue with a signer reloaded from disk, nothing was released
+			trace = append(trace, req+" -> panic (no release)")
+			pv = rcrypto.LoadSFilePV(keyFile, stFile, nil)
+			c.Count("write-fault-refusals", 1)
+			continue
 		}
 		trace = append(trace, fmt.Sprintf("%s -> err=%v", req, err != nil))
 		cur := &release{H: h, R: r, S: step, SignBytes: signBytes, Sig: sig, TS: outTS, Req: req}
